@@ -347,7 +347,14 @@ var $select = comms => {
 
     var entries = [];
     var thisGoroutine = $curGoroutine;
-    var f = { $blk() { return this.selection; } };
+    var f = {
+        $blk() {
+            if (this.closedDuringSend) {
+                $throwRuntimeError("send on closed channel");
+            }
+            return this.selection;
+        }
+    };
     var removeFromQueues = () => {
         for (var i = 0; i < entries.length; i++) {
             var entry = entries[i];
@@ -372,9 +379,10 @@ var $select = comms => {
                     comm[0].$recvQueue.push(queueEntry);
                     break;
                 case 2: /* send */
-                    var queueEntry = () => {
-                        if (comm[0].$closed) {
-                            $throwRuntimeError("send on closed channel");
+                    var queueEntry = closed => {
+                        if (closed) {
+                            /* The channel was closed while this select was blocked: the panic belongs to the selecting goroutine, not to the closer. */
+                            f.closedDuringSend = true;
                         }
                         f.selection = [i];
                         removeFromQueues();
